@@ -7,7 +7,7 @@
 #![allow(clippy::all)]
 
 /// Property assertion.  While the native search checks one property, the assertions whose marker does not concern that
-/// property (`VK_IGNORE` / `VK_ONLY`, longest matching prefix decides — see vf/bounded.py) are not evaluated at all, so
+/// property (`VK_IGNORE` / `VK_ONLY`, longest matching prefix decides — see vf/bounded.py) do not fail, so
 /// that an assertion belonging to another property cannot end the run before this property's own assertions are reached.
 #[cfg(not(kani))]
 #[macro_export]
@@ -15,8 +15,10 @@ macro_rules! vassert {
     ($c:expr, $m:literal) => {{
         // (decided once per assertion site)
         static IGNORED: std::sync::OnceLock<bool> = std::sync::OnceLock::new();
+        // (the condition is always evaluated — some have effects, e.g. a checked push — only its verdict is dropped)
+        let holds: bool = $c;
         if !*IGNORED.get_or_init(|| $crate::marker_ignored($m)) {
-            assert!($c, $m)
+            assert!(holds, $m)
         }
     }};
 }
